@@ -49,9 +49,9 @@ architecture arch_test_stack_02 of test_stack_02 is
   signal buffer_out_front_b0 : std_logic := '0';
   signal buffer_out_front_b1 : std_logic := '0';
   signal buffer_out_front_b2 : std_logic := '0';
-  signal stack_cnt : unsigned(3 downto 0) := unsigned'("0000");
-  signal stack_index : unsigned(3 downto 0) := unsigned'("0000");
-  type array_type is array(0 to 7) of std_logic_vector(3 downto 0);
+  signal stack_cnt : unsigned(2 downto 0) := unsigned'("000");
+  signal stack_index : unsigned(2 downto 0) := unsigned'("000");
+  type array_type is array(0 to 4) of std_logic_vector(3 downto 0);
   signal stack_stack_mem : array_type;
   type array_type1 is array(0 to 2) of std_logic_vector(0 downto 0);
 begin
@@ -73,11 +73,11 @@ begin
   logic: process(stack_cnt, stack_index, stack_stack_mem)
     variable temp : boolean;
     variable temp1 : boolean;
-    variable temp2 : unsigned(3 downto 0);
-    variable temp3 : unsigned(3 downto 0);
+    variable temp2 : unsigned(2 downto 0);
+    variable temp3 : unsigned(2 downto 0);
     variable temp4 : boolean;
-    variable index : unsigned(3 downto 0);
-    variable temp5 : unsigned(3 downto 0);
+    variable index : unsigned(2 downto 0);
+    variable temp5 : unsigned(2 downto 0);
     variable temp6 : std_logic;
     variable inp : std_logic;
     variable inp1 : std_logic;
@@ -89,15 +89,15 @@ begin
   begin
     temp := (stack_cnt = 0);
     buffer_out_empty <= cohdl_bool_to_std_logic(temp);
-    temp1 := (stack_cnt = 8);
+    temp1 := (stack_cnt = 5);
     buffer_out_full <= cohdl_bool_to_std_logic(temp1);
     temp2 := stack_cnt;
-    buffer_out_size <= temp2;
+    buffer_out_size <= resize(temp2, 4);
     temp3 := (stack_index) - (1);
     temp4 := (stack_index = 0);
     case temp4 is
       when true =>
-        index := unsigned'("0111");
+        index := unsigned'("100");
       when others =>
         index := temp3;
     end case;
@@ -139,20 +139,20 @@ begin
     variable first1 : std_logic_vector(2 downto 0);
     variable b2 : std_logic_vector(1 downto 0);
     variable temp8 : std_logic_vector(3 downto 0);
-    variable temp9 : unsigned(3 downto 0);
-    variable temp10 : unsigned(3 downto 0);
+    variable temp9 : unsigned(2 downto 0);
+    variable temp10 : unsigned(2 downto 0);
     variable temp11 : boolean;
-    variable temp12 : unsigned(3 downto 0);
-    variable temp13 : unsigned(3 downto 0);
+    variable temp12 : unsigned(2 downto 0);
+    variable temp13 : unsigned(2 downto 0);
     variable temp14 : boolean;
-    variable temp15 : unsigned(3 downto 0);
+    variable temp15 : unsigned(2 downto 0);
     variable temp16 : boolean;
     variable temp17 : boolean;
-    variable temp18 : unsigned(3 downto 0);
-    variable temp19 : unsigned(3 downto 0);
+    variable temp18 : unsigned(2 downto 0);
+    variable temp19 : unsigned(2 downto 0);
     variable temp20 : boolean;
-    variable index : unsigned(3 downto 0);
-    variable temp21 : unsigned(3 downto 0);
+    variable index : unsigned(2 downto 0);
+    variable temp21 : unsigned(2 downto 0);
     variable temp22 : std_logic;
     variable inp6 : std_logic;
     variable inp7 : std_logic;
@@ -166,8 +166,8 @@ begin
     if rising_edge(clk) then
       temp := reset = '1';
       if temp then
-        stack_cnt <= unsigned'("0000");
-        stack_index <= unsigned'("0000");
+        stack_cnt <= unsigned'("000");
+        stack_index <= unsigned'("000");
         buffer_out_a <= '0';
         buffer_out_b0 <= '0';
         buffer_out_b1 <= '0';
@@ -197,21 +197,21 @@ begin
           temp9 := stack_index;
           stack_stack_mem(to_integer(temp9)) <= temp8;
           temp10 := (stack_cnt) + (1);
-          temp11 := (stack_cnt = 8);
+          temp11 := (stack_cnt = 5);
           case temp11 is
             when true =>
-              temp12 := unsigned'("1000");
+              temp12 := unsigned'("101");
             when others =>
               temp12 := temp10;
           end case;
           stack_cnt <= temp12;
           temp13 := (stack_index) + (1);
-          temp14 := (stack_index /= 7);
+          temp14 := (stack_index /= 4);
           case temp14 is
             when true =>
               temp15 := temp13;
             when others =>
-              temp15 := unsigned'("0000");
+              temp15 := unsigned'("000");
           end case;
           stack_index <= temp15;
         end if;
@@ -225,7 +225,7 @@ begin
           temp20 := (stack_index = 0);
           case temp20 is
             when true =>
-              index := unsigned'("0111");
+              index := unsigned'("100");
             when others =>
               index := temp19;
           end case;
@@ -246,8 +246,8 @@ begin
         end if;
         temp26 := inp_reset = '1';
         if temp26 then
-          stack_index <= unsigned'("0000");
-          stack_cnt <= unsigned'("0000");
+          stack_index <= unsigned'("000");
+          stack_cnt <= unsigned'("000");
         end if;
       end if;
     end if;
